@@ -149,6 +149,12 @@ CLAIMED = {
          'that cawg success codes need the signature verification Ok edge, and that CAWG trust material is read from settings.cawg_trust.* only.'),
    note='Undecided: the cryptographic binding itself. Trusted base: ' + TRUSTED,
    design='5/C33'),
+ 'C25': dict(
+   technique='guarded-effect dominance of commit sites by validate() = Ok + no-Err-after-commit reachability + callee identity of the update primitives + ADT field coverage of Settings::validate',
+   text=('Decides the atomicity clause: every commit of new settings (*self = .., SETTINGS.set(..), self.settings = ..) is dominated by the Ok edge of validation of the candidate value and nothing can fail after it; '
+         'builders return Ok only after validate; the overlay builder merges (merge_json) and the path setter replaces (set_at_path); the top-level validate covers every overriding sub-struct.'),
+   note='Undecided: recursive-merge semantics, get/set inverse, JSON/TOML equivalence (value-level). Trusted base: ' + TRUSTED,
+   design='5/C25'),
 }
 
 NA_REASONS = {
